@@ -98,6 +98,16 @@ func callEnds(n ast.Node, suffix string) (*ast.CallExpr, bool) {
 	return c, p == strings.TrimPrefix(suffix, ".") || strings.HasSuffix(p, suffix)
 }
 
+// isConnClose: the call closes the network connection of a Conn — `c.conn.Close()` or the helper `c.abortRead()`
+// (close + drop what is buffered of the broken response; its body is checked by the fact abortReadClosesAndDrops)
+func isConnClose(path string) bool {
+	return strings.HasSuffix(path, ".conn.Close") || strings.HasSuffix(path, ".abortRead")
+}
+
+func containsConnClose(n ast.Node) bool {
+	return containsCall(n, ".conn.Close") || containsCall(n, ".abortRead")
+}
+
 func containsCall(n ast.Node, suffix string) bool {
 	found := false
 	ast.Inspect(n, func(x ast.Node) bool {
@@ -247,7 +257,7 @@ func extractMuxFacts(repo, root string) error {
 					}
 				}
 			}
-			if b, ok := is.Cond.(*ast.BinaryExpr); ok && b.Op == token.NEQ && src(f.fset, b.Y) == "nil" && containsCall(is.Body, ".conn.Close") {
+			if b, ok := is.Cond.(*ast.BinaryExpr); ok && b.Op == token.NEQ && src(f.fset, b.Y) == "nil" && containsConnClose(is.Body) {
 				peekClose = true
 			}
 			return true
@@ -267,10 +277,10 @@ func extractMuxFacts(repo, root string) error {
 			if !isIf {
 				return true
 			}
-			if isNotCall(is.Cond, "errors.As") && containsCall(is.Body, ".conn.Close") {
+			if isNotCall(is.Cond, "errors.As") && containsConnClose(is.Body) {
 				ok = true
 			}
-			if _, pos := callEnds(is.Cond, "errors.As"); pos && is.Else != nil && containsCall(is.Else, ".conn.Close") {
+			if _, pos := callEnds(is.Cond, "errors.As"); pos && is.Else != nil && containsConnClose(is.Else) {
 				ok = true
 			}
 			return true
@@ -278,6 +288,71 @@ func extractMuxFacts(repo, root string) error {
 		f.add("bodyErrorClosesUnlessKafka", ok, "(*Conn).do: `if !errors.As(err, &kafkaError) { c.conn.Close() }` with no further exemption")
 	} else {
 		f.add("bodyErrorClosesUnlessKafka", false, "(*Conn).do not found")
+	}
+
+	// ---- a close after a response that was not read to its end also drops what is buffered of it (read lock held):
+	// otherwise Peek serves the leftover to callers already waiting for their own responses (C06-D30)
+	{
+		dropsBuffered := func(n ast.Node) bool {
+			ok := false
+			ast.Inspect(n, func(x ast.Node) bool {
+				if c, isCall := x.(*ast.CallExpr); isCall && strings.HasSuffix(selPath(c.Fun), ".rbuf.Discard") && len(c.Args) == 1 {
+					if a, isCall := c.Args[0].(*ast.CallExpr); isCall && strings.HasSuffix(selPath(a.Fun), ".rbuf.Buffered") {
+						ok = true
+					}
+				}
+				return true
+			})
+			return ok
+		}
+		helper := false
+		if fd := findFunc(conn, "Conn", "abortRead"); fd != nil {
+			helper = containsCall(fd.Body, ".conn.Close") && dropsBuffered(fd.Body)
+		}
+		// a block that closes the conn does so through the helper or drops the buffer itself
+		closesWell := func(n ast.Node) bool {
+			bad := false
+			ast.Inspect(n, func(x ast.Node) bool {
+				is, isIf := x.(*ast.IfStmt)
+				if !isIf {
+					return true
+				}
+				for _, blk := range []ast.Node{is.Body, is.Else} {
+					if blk == nil || (!containsCall(blk, "onn.Close") && !containsCall(blk, ".abortRead")) {
+						continue
+					}
+					direct := false // closes in this very block, not in a nested if
+					if b, isBlk := blk.(*ast.BlockStmt); isBlk {
+						for _, st := range b.List {
+							if es, isExpr := st.(*ast.ExprStmt); isExpr {
+								if c, isCall := es.X.(*ast.CallExpr); isCall {
+									p := selPath(c.Fun)
+									if strings.HasSuffix(p, "onn.Close") || strings.HasSuffix(p, ".abortRead") {
+										direct = true
+									}
+								}
+							}
+						}
+					}
+					if direct && !((containsCall(blk, ".abortRead") && helper) || dropsBuffered(blk)) {
+						bad = true
+					}
+				}
+				return true
+			})
+			return !bad
+		}
+		all := helper
+		for _, x := range []struct {
+			file *ast.File
+			recv, name string
+		}{{conn, "Conn", "do"}, {conn, "Conn", "ApiVersions"}, {batch, "Batch", "close"}} {
+			fd := findFunc(x.file, x.recv, x.name)
+			if fd == nil || !closesWell(fd.Body) {
+				all = false
+			}
+		}
+		f.add("readFailureCloseDropsBuffered", all, "(*Conn).do, (*Conn).ApiVersions, (*Batch).close: the close after an unreadable response drops the read buffer (abortRead / rbuf.Discard(rbuf.Buffered())) while the read lock is held")
 	}
 
 	// ---- Batch.close: discards the rest, keeps the conn only for kafka errors and io.ErrShortBuffer
